@@ -51,7 +51,7 @@ func (c13) Runs(t Tier) int {
 }
 func (c13) RecordWidths() map[string]int { return map[string]int{"corrupt": 4} }
 func (c13) RequiredProbes() []string {
-	return []string{"bitflip", "truncate", "extend", "misdirected", "type-rewrite", "fanout-rewrite", "fanout-mismatch-parent-child", "bitfield-longer", "bitfield-shorter", "hashtype-rewrite", "filesize-rewrite", "blocksizes-rewrite", "name-absent", "name-short", "name-duplicate", "tsize-absent", "corrupt-at-kth-read", "link-retarget", "deep-shard-chain", "decoder-bytes", "op-error", "op-ok-despite-corruption"}
+	return []string{"bitflip", "truncate", "extend", "misdirected", "type-rewrite", "fanout-rewrite", "fanout-mismatch-parent-child", "bitfield-longer", "bitfield-shorter", "hashtype-rewrite", "filesize-rewrite", "blocksizes-rewrite", "name-absent", "name-short", "name-duplicate", "tsize-absent", "corrupt-at-kth-read", "link-retarget", "deep-shard-chain", "diamond-shard-chain", "decoder-bytes", "op-error", "op-ok-despite-corruption"}
 }
 
 type c13Scenario struct {
@@ -86,6 +86,9 @@ func buildInfo(st *store.Store, root cid.Cid) (map[string]*blockInfo, []cid.Cid)
 			for _, l := range ls {
 				if st.Has(l) {
 					bi.size += walk(l, depth+1)
+					if bi.size > 1<<24 {
+						bi.size = 1 << 24 // saturate: shared sub-DAGs expand exponentially
+					}
 				}
 			}
 		}
@@ -368,10 +371,13 @@ func corruptBlock(res *Result, st *store.Store, info map[string]*blockInfo, orde
 		res.probe("tsize-absent")
 		desc = "tsize absent/negative/zero"
 	case 13: // links dropped / reordered (still a DAG)
-		if len(rn.Links) < 2 {
+		if len(rn.Links) < 1 || (len(rn.Links) < 2 && b%3 != 2) {
 			return nil, ""
 		}
-		if b%2 == 0 {
+		if b%3 == 2 {
+			rn.Links = nil
+			desc = "all links dropped"
+		} else if b%2 == 0 {
 			rn.Links = rn.Links[:len(rn.Links)-1]
 			desc = "last link dropped"
 		} else {
@@ -483,7 +489,21 @@ func (c13) Run(ts *tape.Set, tier Tier) *Result {
 	var root cid.Cid
 	var names []string
 	deepChain := isDir && shape.Intn(8) == 0
-	if deepChain {
+	diamond := isDir && !deepChain && shape.Intn(10) == 0
+	if diamond {
+		// depth+1 blocks, 2^depth paths. Operations whose result is one value
+		// (reify, preload, Length, lookups) must stay proportional to the
+		// blocks; operations whose output IS the expansion (iteration yields
+		// every path's entries) are not run on this shape: their work is
+		// proportional to what they return
+		fan := []int{8, 16, 256}[shape.Intn(3)]
+		depth := 30 + shape.Intn(30)
+		leaves := shape.Intn(3)
+		root = gen.WriteDiamondShardChain(st, fan, depth, leaves)
+		names = []string{"leaf0", "leaf1"}
+		sc.Kind, sc.Spec = "dir", fmt.Sprintf("hand-made diamond shard chain fanout=%d depth=%d (2^%d paths over %d blocks) leaf entries=%d", fan, depth, depth, depth+1, leaves)
+		res.probe("diamond-shard-chain")
+	} else if deepChain {
 		// a hand-made hostile directory: a shard chain deeper than the hash
 		// has bits; lookups of the name must end in an error
 		fan := []int{8, 16, 32, 64, 128, 256, 512, 1024}[shape.Intn(8)]
@@ -586,7 +606,12 @@ func (c13) Run(ts *tape.Set, tier Tier) *Result {
 		}
 		payloads = append(payloads, nb)
 	}
-	if len(replace) == 0 && !deepChain {
+	if diamond {
+		replace = map[string][]byte{}
+		sc.Corruptions = nil
+		res.NonTrivial = true
+	}
+	if len(replace) == 0 && !deepChain && !diamond {
 		res.Skipped, res.SkipReason = true, "no corruption applicable"
 		return res
 	}
@@ -705,6 +730,10 @@ func (c13) Run(ts *tape.Set, tier Tier) *Result {
 					}
 				}
 				_, _ = n.LookupByIndex(0)
+				if diamond {
+					_ = n.Length()
+					return "", lastErr
+				}
 				// full map iteration
 				budget := 16*totalLinks + 64
 				if it := n.MapIterator(); it != nil {
@@ -837,6 +866,9 @@ func (c13) Run(ts *tape.Set, tier Tier) *Result {
 	}
 	for i, sel := range []datamodel.Node{unixfsnode.MatchUnixFSEntitySelector.Node(), unixfsnode.MatchUnixFSPreloadSelector.Node(), unixfsnode.UnixFSPathSelector("a/b")} {
 		sel := sel
+		if diamond && i == 0 {
+			continue // the entity selector iterates: output is the expansion
+		}
 		if !runOp([]string{"entity-walk", "preload-walk", "path-walk"}[i], 2, func(w *world.World) (string, error) {
 			rn, err := w.LoadRoot(root)
 			if err != nil {
